@@ -76,13 +76,16 @@ structure Cfg where
   banned : List String
   native : List String
   kinds : List Kind
+  /-- the names of the alphabet with a leading underscore (the driver computes them from the names of the case) -/
+  priv : List String := []
 
-def moduleCfg : Cfg := ⟨banned, nativeAttrs, Kind.all⟩
-def bundleCfg : Cfg := ⟨bundleBanned, bundleNativeAttrs, [.signal, .bundle]⟩
+def moduleCfg : Cfg := ⟨banned, nativeAttrs, Kind.all, []⟩
+def bundleCfg : Cfg := ⟨bundleBanned, bundleNativeAttrs, [.signal, .bundle], []⟩
 
 /-- The checks shared by `add` and `__setattr__` (type check, `_assert_addable`), then `_add`. -/
 def tryAdd (cfg : Cfg) (names : List String) (s : State) (o : Obj) (n : String) : State × Out :=
   if n ∈ cfg.banned then (s, .reject)
+  else if n ∈ cfg.priv then (s, .reject)       -- a leading underscore is a plain Python attribute, never an HDL name
   else if o.kind ∉ cfg.kinds then (s, .reject)
   else if s.frozen then (s, .reject)
   else if aliased names s o n then (s, .reject)
@@ -90,7 +93,8 @@ def tryAdd (cfg : Cfg) (names : List String) (s : State) (o : Obj) (n : String) 
 
 def step (cfg : Cfg) (names : List String) (s : State) : Op → State × Out
   | .setattr key v =>
-    match v with
+    if key ∈ cfg.priv then (s, .ok)              -- `x._a = anything`: stored on the Python object, nothing is filed
+    else match v with
     | .other => (s, .reject)
     | .hdl o => tryAdd cfg names s o key
   | .add v name =>
